@@ -16,7 +16,7 @@ pub fn meta() -> Meta {
     Meta {
         id: "C08",
         level: "model_checking",
-        rule: "explicit-state BFS over the subset lattice: state = .skf content (hidden fields included) of the remaining samples, actions = the real generic_modes::delete of every non-empty proper subset of the current names (quick: n<=5; thorough: n<=6, and n=8 with single and double deletions), so every subset is reached along every chain; invariant in every state: the file equals the model table and the real fresh build of the remaining samples (order kept, rows of deleted-only k-mers gone, stored counts = fresh counts). CLI family: names on the command line vs one-per-line names file (with/without trailing newline, blank line), in place and with -o; refusals (unknown name, all samples) must exit non-zero and leave the file byte-identical. Search paths are re-executed through `ska delete`.".into(),
+        rule: "explicit-state BFS over the subset lattice: state = .skf content (hidden fields included) of the remaining samples, actions = the real generic_modes::delete of every non-empty proper subset of the current names, the names given in every order (up to three names; file order, reversed and rotated above) (quick: n<=5; thorough: n<=6, and n=8 with single and double deletions), so every subset is reached along every chain; invariant in every state: the file equals the model table and the real fresh build of the remaining samples (order kept, rows of deleted-only k-mers gone, stored counts = fresh counts). CLI family: names on the command line vs one-per-line names file (with/without trailing newline, blank line), in place and with -o; refusals (unknown name, all samples) must exit non-zero and leave the file byte-identical. Search paths are re-executed through `ska delete`.".into(),
         assumptions: vec!["sorted-row canonical form: delete treats rows independently".into()],
         exhaustive_when_uncapped: false,
     }
@@ -48,7 +48,21 @@ impl Sys for World {
         let mut v = Vec::new();
         for mask in 1u32..((1u32 << n) - 1) {
             if (mask.count_ones() as usize) <= self.max_del {
-                v.push((0..n).filter(|i| mask & (1 << i) != 0).map(|i| s.table.names[i].clone()).collect());
+                let inorder: Vec<String> = (0..n).filter(|i| mask & (1 << i) != 0).map(|i| s.table.names[i].clone()).collect();
+                // the names may be given in any order: all orders up to three names, file order / reversed / rotated above
+                if inorder.len() <= 3 {
+                    for p in crate::enumerate::permutations(inorder.len()) {
+                        v.push(p.iter().map(|i| inorder[*i].clone()).collect());
+                    }
+                } else {
+                    let mut rev = inorder.clone();
+                    rev.reverse();
+                    let mut rot = inorder.clone();
+                    rot.rotate_left(1);
+                    v.push(inorder);
+                    v.push(rev);
+                    v.push(rot);
+                }
             }
         }
         v
@@ -111,7 +125,10 @@ fn cli_family(ctx: &Ctx, rep: &mut Report, idx: &mut u64) {
         }
         let w = World { k, rc, pool: pool.clone(), paths: paths.clone(), max_del: 8 };
         for mask in 1u32..15 {
-            let del: Vec<String> = (0..n).filter(|i| mask & (1 << i) != 0).map(|i| names[i].clone()).collect();
+            let mut del: Vec<String> = (0..n).filter(|i| mask & (1 << i) != 0).map(|i| names[i].clone()).collect();
+            if mask % 2 == 1 {
+                del.reverse(); // names need not be given in file order
+            }
             let remaining: Vec<String> = names.iter().filter(|x| !del.contains(x)).cloned().collect();
             let want = w.model(&remaining);
             // routes: names on the command line; names file variants; in place or -o
